@@ -12,7 +12,7 @@ import (
 func init() {
 	register("C16",
 		"DECIDED: D1 sketch table — for every accepted factor class other than 1, every feasible path of DDSketch.Reweight scales the zero weight by w and calls Reweight(w) on both the positive and the negative store with the same factor term (callee tables show no store can fail after the guard); the exact variant then reweights the statistics. "+
-			"D2 every store body scales everything it holds: dense — cached total *= w and the loop multiplies every element of the window minIndex…maxIndex inclusive; sparse — the loop ranges over the map it writes and multiplies every entry by w; paginated — every element of every page is multiplied by w and every index that was in the buffer before it is truncated is re-added with weight exactly w through the store's own AddWithCount. "+
+			"D2 every store body scales everything it holds: dense — cached total *= w and the loop multiplies every element of the window minIndex…maxIndex inclusive and is left only through its counter test; sparse — the loop ranges over the map it writes and multiplies every entry by w; paginated — every element of every page is multiplied by w and every index that was in the buffer before it is truncated is re-added with weight exactly w through the store's own AddWithCount. "+
 			"D3 exact variant — its Reweight performs the inner Reweight first and, on the success edge only, the statistics Reweight with the same factor; SummaryStatistics.Reweight multiplies every accumulator (count, sum, sum compensation) by a positive factor and leaves min/max alone (the C10-D1/D3 obligations re-evaluated). "+
 			"SHARED (re-evaluated here under its home rule id): C04-D9 for the paginated Reweight (a buffered index re-added with weight w goes to the line of its own page; pages through the accessor). C14-D2 for the two sketch types (a copy shares neither stores nor statistics with its original: reweighting one scales only that one). "+
 			"NOT DECIDED: equality of the scaled values (float multiplication), interaction with collapse (the collapsing stores inherit the dense body — safe by C05-D1).",
